@@ -155,6 +155,8 @@ def random_mean_theta(name, rng, x, y_scale):
     span = np.ptp(x, axis=0)
     span = np.where(span > 0, span, 1.0)
     t = [rng.normal() * y_scale]
+    if name == "UserDecay":
+        return np.array([t[0], rng.uniform(0.2, 3.0)])
     if name in ("Linear", "Quadratic"):
         t.extend(rng.normal(size=d) * y_scale / span)
     if name == "Quadratic":
@@ -165,4 +167,44 @@ def random_mean_theta(name, rng, x, y_scale):
 def build_repo_mean(name):
     from inference.gp import mean as M
 
+    if name == "UserDecay":
+        return user_decay_class()()
     return {"Constant": M.ConstantMean, "Linear": M.LinearMean, "Quadratic": M.QuadraticMean}[name]()
+
+
+def user_decay_class():
+    """A mean function written against the library's MeanFunction interface, as a user would (documented extension point):
+    m(x) = c * exp(-k * s(x)) with s the first coordinate rescaled to [0, 1] over the training inputs; non-linear in k."""
+    from inference.gp import mean as M
+
+    global UserDecayMean
+    if "UserDecayMean" not in globals():
+        class UserDecayMean(M.MeanFunction):
+            def __init__(self, hyperpar_bounds=None):
+                self.bounds = hyperpar_bounds
+                self.n_params = 2
+                self.hyperpar_labels = ["decay amplitude", "decay rate"]
+
+            def pass_spatial_data(self, x):
+                x0 = np.asarray(x, float)[:, 0]
+                self.lo, self.rng_ = x0.min(), (np.ptp(x0) or 1.0)
+                self.s = (x0 - self.lo) / self.rng_
+                self.n_data = x0.size
+
+            def estimate_hyperpar_bounds(self, y):
+                w = y.max() - y.min()
+                self.bounds = [(y.min() - w, y.max() + w), (0.0, 5.0)]
+
+            def __call__(self, q, theta):
+                sq = (np.atleast_2d(np.asarray(q, float))[:, 0] - self.lo) / self.rng_
+                return theta[0] * np.exp(-theta[1] * sq)
+
+            def build_mean(self, theta):
+                return theta[0] * np.exp(-theta[1] * self.s)
+
+            def mean_and_gradients(self, theta):
+                e = np.exp(-theta[1] * self.s)
+                return theta[0] * e, [e, -theta[0] * self.s * e]
+
+        UserDecayMean.__module__ = __name__
+    return UserDecayMean
